@@ -89,8 +89,15 @@ def emit (startTy endTy : RTy) (step : Int) : Skel :=
            else if idx = .int then .taggedAdd else .intOp
     stepLit := if idx.isFixed then step else 2 * step }
 
-/-- the step the literal stands for -/
-def Skel.step (s : Skel) : Int := if s.idx.isFixed then s.stepLit else s.stepLit / 2
+/-- the step literal is representable where `ForRange` puts it: in the native index type (anything else is
+    rejected at compile time: "Value … is out of range"), or as a short int for the tagged index types -/
+def StepLitOk (startTy endTy : RTy) (step : Int) : Bool :=
+  if (indexType startTy endTy).isFixed then (indexType startTy endTy).fits step else RTy.short.fits step
+
+/-- the step the add actually applies.  For the tagged index types the literal is emitted as a *short int*
+    `Integer` whatever its size (`Integer(self.step)`): the doubled value is a 64-bit C constant, read back as
+    a short int — steps outside the short-int range come back wrapped (beyond 64 bits the C does not compile). -/
+def Skel.step (s : Skel) : Int := if s.idx.isFixed then s.stepLit else RTy.short.wrap (s.stepLit / 2)
 
 def Skel.cond (s : Skel) (i stop : Int) : Bool :=
   match s.cmp with
